@@ -70,6 +70,8 @@ class V1Parser:
         self.buffer = b""
         remaining = lines.pop()
         header = lines.pop()
+        if len(header) + len(self.NEWLINE) > 107:
+            raise InvalidProxyHeader()
         info = self.parse(header)
         return (info, remaining)
 
@@ -107,8 +109,7 @@ class V1Parser:
         if proxyStr != cls.PROXYSTR:
             raise InvalidProxyHeader()
 
-        with convertError(ValueError, InvalidNetworkProtocol):
-            networkProtocol, line = line.split(b" ", 1)
+        networkProtocol, _, line = line.partition(b" ")
 
         if networkProtocol not in cls.ALLOWED_NET_PROTOS:
             raise InvalidNetworkProtocol()
@@ -128,15 +129,19 @@ class V1Parser:
         with convertError(ValueError, MissingAddressData):
             destPort = line.split(b" ")[0]
 
+        with convertError(ValueError, MissingAddressData):
+            sourceHost, sourcePortNumber = sourceAddr.decode(), int(sourcePort)
+            destHost, destPortNumber = destAddr.decode(), int(destPort)
+
         if networkProtocol == cls.TCP4_PROTO:
             return _info.ProxyInfo(
                 originalLine,
-                address.IPv4Address("TCP", sourceAddr.decode(), int(sourcePort)),
-                address.IPv4Address("TCP", destAddr.decode(), int(destPort)),
+                address.IPv4Address("TCP", sourceHost, sourcePortNumber),
+                address.IPv4Address("TCP", destHost, destPortNumber),
             )
 
         return _info.ProxyInfo(
             originalLine,
-            address.IPv6Address("TCP", sourceAddr.decode(), int(sourcePort)),
-            address.IPv6Address("TCP", destAddr.decode(), int(destPort)),
+            address.IPv6Address("TCP", sourceHost, sourcePortNumber),
+            address.IPv6Address("TCP", destHost, destPortNumber),
         )
